@@ -769,6 +769,18 @@ func storeProtocol(in *Interp, isDest func(*IRVal) bool, temps map[string]bool, 
 
 func checkC05Stores(c *Check, L *Loaded) {
 	r := c.Rule("R5.6", "a statement that stores into an owned destination releases the old value first and then copies a non-temporary or claims and moves a temporary, exactly once", 20)
+	runStoreScenarios(L, func(k string, runs int, bad []string) {
+		if runs == 0 {
+			r.Und(k, token.NoPos, "not evaluated")
+			return
+		}
+		r.Decide(len(bad) == 0, k, token.NoPos, "old value released first (where there is one); copy of a non-temporary / claim and move of a temporary; once", strings.Join(uniq(bad), "; "))
+	})
+}
+
+// runStoreScenarios evaluates the storing statements for every non-primitive class and temporariness and reports the problems found
+// (shared by C05 R5.6 and C08 R8.1).
+func runStoreScenarios(L *Loaded, report func(key string, runs int, bad []string)) {
 	in, mk := newGeneratorInterp(L)
 	npTypes := []*DT{{Kind: "TEXT"}, {Kind: "LIST", Elem: &DT{Kind: "ZAHL"}}, {Kind: "LIST", Elem: &DT{Kind: "TEXT"}}, {Kind: "VARIABLE"}, {Kind: "STRUCT", Name: "Punkt"}}
 	type scen struct {
@@ -885,11 +897,8 @@ func checkC05Stores(c *Check, L *Loaded) {
 					tf = "temporary"
 				}
 				k := "compiler.(*compiler)." + sc.name + "|" + toGen(d).String() + ", value " + tf
-				if runs == 0 {
-					r.Und(k, token.NoPos, "not evaluated")
-					continue
-				}
-				r.Decide(len(bad) == 0, k, token.NoPos, "old value released first (where there is one); copy of a non-temporary / claim and move of a temporary; once", strings.Join(uniq(bad), "; "))
+				_ = inits
+				report(k, runs, bad)
 			}
 		}
 	}
